@@ -443,6 +443,24 @@ class Taint:
             if base[0] == "call" and base[1] in self.F.bodies and tup:
                 # tuple-returning local function: only the tainted components count
                 return (base[1], tup[0]) in self.TR or (base[1] in self.TR and (base[1], "tuple") not in self.TR)
+            if base[0] == "local" and e[2] and e[2][0][0] == "(tuple)" and (body.path, base[1]) not in self.TL:
+                # a local tuple built component-wise (`let (a, b) = match .. { .. => (x, y), .. => (None, 0) }`):
+                # only the projected component of each defining aggregate counts
+                defs = body.defs().get(base[1], [])
+                if defs and all(d[0] == "assign" and d[3]["k"] == "aggregate" and d[3].get("agg") == "tuple" for d in defs):
+                    try:
+                        idx = int(e[2][0][1])
+                    except ValueError:
+                        idx = None
+                    if idx is not None and all(idx < len(d[3]["ops"]) for d in defs):
+                        rest = e[2][1:]
+                        for d in defs:
+                            sub = body.expr(d[3]["ops"][idx])
+                            if rest:
+                                sub = ("place", sub, rest, False, ())
+                            if self.tainted(body, sub, seen):
+                                return True
+                        return False
             return self.tainted(body, base, seen)
         if k == "ref":
             return self.tainted(body, e[1], seen)
@@ -732,13 +750,28 @@ class Discharger:
             if cond_mentions_state:
                 return ("protocol", "turn-taking precondition asserted at the API entry (the property conditions on it)")
         row = self.rows.get(s.key)
+        rkey = s.key
+        if row is None and "|" in s.key:
+            # the site may have moved into another method of the same type (a helper extracted from / inlined into the
+            # function the row names): a row of the same type with the same site signature applies if -- and only if --
+            # it carries a structural check, which is then evaluated at the site's actual location
+            fn, rest = s.key.split("|", 1)
+            rest0 = re.sub(r"#\d+$", "", rest)
+            owner = fn.rsplit("::", 1)[0]
+            for k2, r2 in sorted(self.rows.items()):
+                if r2.get("check") is None or "|" not in k2:
+                    continue
+                fn2, rest2 = k2.split("|", 1)
+                if fn2.rsplit("::", 1)[0] == owner and re.sub(r"#\d+$", "", rest2) == rest0:
+                    row, rkey = r2, k2
+                    break
         if row is not None:
             chk = row.get("check")
             if chk is not None:
                 res = chk(self.F, self.E, body, s)
                 if not res:
                     return None
-            self.used_rows.add(s.key)
+            self.used_rows.add(rkey)
             return ("row:" + row["inv"], row["why"])
         return None
 
